@@ -8,6 +8,7 @@ from hypothesis import strategies as st
 from .. import gen, glrcore as G, pgl, trees as T
 from ..cfg import CFG
 from ..core import SubCheck
+from .c02 import nullable_goto_cycle
 from ..ref_chart import Chart, Lexicon
 
 import parglare
@@ -208,7 +209,10 @@ def run_case(case, ctx):
             inputs.append(G.render([j] + w[:1] + [j, j] + w[1:], case["fill"], k))
             inputs.append(G.render(w[:1] + [j] + w[1:] + [j], case["fill"], k))
     inputs += case["strings"]
+    if case.get("inputs") is not None:
+        inputs = list(case["inputs"])
     ctx.label("strategy:" + strat_name)
+    d1 = None
     for text in inputs:
         member = Chart(cfg, lex, text).accepts()
         info = dict(input=text, **info0)
@@ -221,6 +225,16 @@ def run_case(case, ctx):
             out = G.run_parse(parser, text, G.parse_budget(text, cfg) * 2)
             if out.kind == "budget":
                 ctx.fail("recovery-does-not-terminate", parser=who, steps=out.steps, **info)
+            if member and who == "GLR" and out.kind != "other" and (out.kind == "syntax" or parser.errors):
+                # Finding D1: on grammars with a goto cycle over nullable non-terminals GLR itself rejects
+                # some sentences; the recovering parser inherits that (it gives up or "recovers" from an
+                # error that is none).  Signature as in C01/C02 plus: the same parser without recovery
+                # rejects the sentence too.
+                if d1 is None:
+                    d1 = nullable_goto_cycle(parser.table, cfg.nullable())
+                if d1 and G.run_parse(plain, text).kind == "syntax":
+                    ctx.known("D1", "recovering-parser-inherits-rejected-sentence", parser=who, **info)
+                    continue
             if out.kind == "other":
                 ctx.fail("recovery-raises-other-exception", parser=who, error=repr(out.exc)[:300], **info)
             if out.kind == "syntax":
@@ -247,6 +261,23 @@ def run_case(case, ctx):
             except Exception as v:
                 from ..core import Violation
                 if isinstance(v, Violation) and multi and v.kind in ("error-spans-overlap-or-out-of-order",):
+                    if case.get("pin"):
+                        # pinned corpus of the D18 class: the recorded spans are required exactly, so another
+                        # defect that shows as 'GLR spans out of order with several recovering heads' is
+                        # still reported (inputs of the corpus without a record are strict)
+                        from ..core import stable_hash
+                        key = stable_hash([case["g"], text])
+                        now = [[e.location.start_position, e.location.end_position] for e in errors]
+                        rec = ctx.__dict__.get("_recording")
+                        if rec is not None:
+                            rec[key] = now
+                        else:
+                            want = d18_pins().get(key)
+                            if want != now:
+                                ctx.fail("behaviour-differs-from-recorded-finding", parser=who, recorded=want,
+                                         now=now, **info)
+                            ctx.label("recorded D18 manifestation confirmed")
+                        continue
                     ctx.known("D18", v.kind, **v.details)
                     continue
                 raise
@@ -282,6 +313,62 @@ def run_case(case, ctx):
             ctx.nontrivial([case["g"], strat_name, text, who],
                            sample={"grammar": text_g, "strategy": strat_name, "input": text, "parser": who,
                                    "error_spans": spans})
+
+
+_D18 = None
+
+
+def d18_pins():
+    global _D18
+    if _D18 is None:
+        import json
+        import os
+        from .. import VERIF_DIR
+        path = os.path.join(VERIF_DIR, "regress", "C11", "D18-pins.json")
+        _D18 = json.load(open(path))["pins"] if os.path.exists(path) else {}
+    return _D18
+
+
+# grammars on which several GLR heads are alive at an error (R/R choice resolved one or two tokens later,
+# lookaheads merged by LALR), so that one head may recover and another may not
+MULTI_HEAD = [
+    {"nts": ["S", "Item", "P", "Q", "R", "A"], "terms": [[t, "str", t] for t in "abcdek"],
+     "prods": [["S", ["S", "Item"]], ["S", ["Item"]], ["Item", ["P", "A", "c"]], ["Item", ["Q", "A", "d"]],
+               ["Item", ["R", "e", "k"]], ["P", ["a"]], ["Q", ["b"]], ["R", ["a"]], ["A", ["e"]]]},
+    {"nts": ["S", "Item", "P", "R", "A"], "terms": [[t, "str", t] for t in "acdek"],
+     "prods": [["S", ["S", "Item"]], ["S", ["Item"]], ["Item", ["P", "A", "c"]], ["Item", ["R", "A", "d"]],
+               ["Item", ["R", "e", "k"]], ["P", ["a"]], ["R", ["a"]], ["A", ["e"]]]},
+    {"nts": ["S", "Item", "P", "Q", "A", "B"], "terms": [[t, "str", t] for t in "abcde"],
+     "prods": [["S", ["Item", "S"]], ["S", ["Item"]], ["Item", ["P", "A", "c"]], ["Item", ["Q", "B", "d"]],
+               ["P", ["a"]], ["Q", ["a"]], ["A", ["e"]], ["B", ["e"]], ["Item", ["b", "A", "d"]]]},
+]
+
+
+def enum_d18(tier):
+    def it():
+        for g in MULTI_HEAD:
+            cfg = CFG.from_json(g)
+            items = [[x for x in rhs] for lhs, rhs in cfg.prods if lhs == "Item"]
+            # expand the items to token strings (every non-terminal here derives one token)
+            one = {lhs: rhs[0] for lhs, rhs in cfg.prods if len(rhs) == 1 and lhs not in ("S",)}
+            sents = [[one.get(x, x) for x in it_] for it_ in items]
+            bases = [a for a in sents] + [a + b for a in sents for b in sents]
+            tn = [t[0] for t in g["terms"]]
+            ins1 = [["!"], ["!", tn[-2]], [tn[-2]], [tn[-1]], ["!", tn[-3]]]
+            ins2 = [["!"], [tn[-2]]]
+            inputs = []
+            for b in bases:
+                for i in range(len(b) + 1):
+                    for x in ins1:
+                        inputs.append(" ".join(b[:i] + x + b[i:]))
+                        for j in range(i, len(b) + 1):
+                            for y in ins2:
+                                inputs.append(" ".join(b[:i] + x + b[i:j] + y + b[j:]))
+            inputs = sorted(set(inputs))
+            for k in range(0, len(inputs), 150):
+                yield {"g": g, "strategy": "default", "fill": [" "], "strings": [], "max_len": 0,
+                       "inputs": inputs[k:k + 150], "pin": True}
+    return it()
 
 
 FILL = st.lists(st.sampled_from(["", " ", "\n", " \n ", "  "]), min_size=3, max_size=5)
@@ -330,6 +417,7 @@ SUBCHECKS = [
     SubCheck("expression-grammar", run_case, strategy=strat_expr, examples={"quick": 160, "thorough": 2400}),
     SubCheck("random-grammars", run_case, strategy=strat_cfg, examples={"quick": 960, "thorough": 9600}),
     SubCheck("nullable-chain-family", run_case, strategy=strat_chain, examples={"quick": 320, "thorough": 3200}),
+    SubCheck("d18-pinned-corpus", run_case, enumerate=enum_d18),
 ]
 
 
